@@ -188,8 +188,95 @@ pub(super) fn buffered_case(cx: &mut Ctx, which: u64, limit: usize, xs: &[i64], 
     }
 }
 
+fn mk_blob(i: usize, j: usize) -> Vec<u8> { let mut b = vec![i as u8]; b.extend(std::iter::repeat(j as u8).take(j % 3)); b }
+
+/// one AsyncMemoryBlobStore, a history of operations (see coq/C18/ModelStore.v, kind 21): 2000 + k put_batch of k blobs, 1 put,
+/// 100 + j remove of the j-th id handed out so far, 4000 get_batch of all ids handed out in reverse order, 4001 in order of issue
+/// followed by an id that was never handed out, 4002 the live ids only, anything else len
+pub(super) fn store_case(cx: &mut Ctx, preset: u64, ops_in: &[i64], force: bool) {
+    let cell = "AsyncMemoryBlobStore::put_batch/get_batch";
+    let ops: Vec<i64> = ops_in.iter().cloned().filter(|&o| (2000..2040).contains(&o) || o == 1 || (100..1000).contains(&o) || (4000..=4002).contains(&o) || o == 5).take(200).collect();
+    let case = json!({"cell": "storehist", "kind": 21, "preset": preset, "ops": ops});
+    cx.sum.eval(cell, &format!("sh {} {:?}", preset, ops), ops.len() >= 2);
+    cx.sum.cell_status(cell, "M+S");
+    let ov = ops.clone();
+    let r = guarded(move || with_rt(0, async move {
+        let store = match preset { 0 => AsyncMemoryBlobStore::new(), 1 => AsyncMemoryBlobStore::with_capacity(2), _ => AsyncMemoryBlobStore::default() };
+        let mut shadow: std::collections::HashMap<u32, Vec<u8>> = std::collections::HashMap::new();
+        let mut issued: Vec<u32> = vec![];
+        let mut obs: Vec<i64> = vec![];
+        let mut bad: Option<String> = None;
+        let blobs_obs = |r: &Option<Vec<Vec<u8>>>, obs: &mut Vec<i64>| match r { Some(bs) => for b in bs { obs.push(-1); obs.extend(b.iter().map(|&x| x as i64)); }, None => obs.push(-2) };
+        for (i, &o) in ov.iter().enumerate() {
+            if (2000..3000).contains(&o) {
+                let k = (o - 2000) as usize;
+                let blobs: Vec<Vec<u8>> = (0..k).map(|j| mk_blob(i, j)).collect();
+                let refs: Vec<&[u8]> = blobs.iter().map(|b| b.as_slice()).collect();
+                match store.put_batch(refs).await {
+                    Ok(ids) => {
+                        if ids.len() != k && bad.is_none() { bad = Some(format!("operation {}: put_batch of {} blobs returned {} ids", i, k, ids.len())); }
+                        for (j, &id) in ids.iter().enumerate() {
+                            if (shadow.contains_key(&id) || ids[..j].contains(&id)) && bad.is_none() { bad = Some(format!("operation {}: put_batch handed out id {} which is in use", i, id)); }
+                            if j < k { shadow.insert(id, blobs[j].clone()); }
+                            obs.push(id as i64);
+                        }
+                        issued.extend(ids);
+                    }
+                    Err(e) => { obs.push(-3); if bad.is_none() { bad = Some(format!("operation {}: put_batch failed: {:?}", i, e)); } }
+                }
+            } else if o == 1 {
+                let b = mk_blob(i, 7);
+                match store.put(&b).await {
+                    Ok(id) => { if shadow.contains_key(&id) && bad.is_none() { bad = Some(format!("operation {}: put handed out id {} which is in use", i, id)); } shadow.insert(id, b); issued.push(id); obs.push(id as i64); }
+                    Err(e) => { obs.push(-3); if bad.is_none() { bad = Some(format!("operation {}: put failed: {:?}", i, e)); } }
+                }
+            } else if (100..1000).contains(&o) {
+                if !issued.is_empty() {
+                    let id = issued[(o - 100) as usize % issued.len()];
+                    let ok = store.remove(id).await.is_ok();
+                    if ok != shadow.remove(&id).is_some() && bad.is_none() { bad = Some(format!("operation {}: remove({}) returned {}", i, id, if ok { "Ok" } else { "Err" })); }
+                    obs.push(ok as i64);
+                }
+            } else if (4000..=4002).contains(&o) {
+                let ids: Vec<u32> = match o { 4000 => issued.iter().rev().cloned().collect(), 4001 => { let mut v = issued.clone(); v.push(4000000000); v }, _ => issued.iter().cloned().filter(|id| shadow.contains_key(id)).collect() };
+                let got = store.get_batch(ids.clone()).await.ok();
+                let want: Option<Vec<Vec<u8>>> = ids.iter().map(|id| shadow.get(id).cloned()).collect();
+                if got != want && bad.is_none() { bad = Some(format!("operation {}: get_batch({:?}) returned {:?}, the records put under these ids are {:?}", i, ids, got, want)); }
+                blobs_obs(&got, &mut obs);
+            } else {
+                let n = store.len().await;
+                if n != shadow.len() && bad.is_none() { bad = Some(format!("operation {}: len() = {}, {} records are live", i, n, shadow.len())); }
+                obs.push(n as i64);
+            }
+            obs.push(-7);
+        }
+        (obs, bad)
+    }));
+    match r {
+        Err(p) => cx.sum.fail(cell, None, case, &format!("panicked: {}", p)),
+        Ok((obs, bad)) => {
+            cx.coq(21, preset, 0, &ops, &obs, &case, force);
+            if let Some(b) = bad { cx.sum.fail(cell, None, case, &b); }
+        }
+    }
+}
+
 pub(super) fn generate(cx: &mut Ctx) {
     let thorough = cx.thorough;
+    // kind 21: blob store histories
+    for rep in 0..(if thorough { 300 } else { 70 }) {
+        let mut r = cx.rng.clone();
+        let n = 2 + r.below(9) as usize;
+        let mut ops: Vec<i64> = vec![];
+        if rep % 4 == 0 { ops.push(2000 + r.below(4) as i64); }
+        for _ in 0..n {
+            ops.push(match r.below(10) { 0 | 1 | 2 => 2000 + *r.pick(&[0i64, 1, 2, 3, 5, 9]), 3 => 1, 4 | 5 => 100 + r.below(12) as i64, 6 => 4000, 7 => 4001, 8 => 4002, _ => 5 });
+        }
+        if rep % 3 == 0 { ops.push(4002); ops.push(4000); }
+        let preset = r.below(3);
+        cx.rng = r;
+        store_case(cx, preset, &ops, false);
+    }
     // kind 19: every loop, intervals 0, 1, 2, 3, n - 1, n, n + 1, 16, 17 on 0..40 items, with and without a failing item
     let lens: Vec<usize> = if thorough { vec![0, 1, 2, 3, 4, 5, 7, 8, 9, 15, 16, 17, 18, 33, 40] } else { vec![0, 1, 2, 3, 5, 8, 17, 33] };
     for &n in &lens {
